@@ -258,8 +258,12 @@ func StickyBlocks(b StickyBounds) []Block {
 			total = b.FullTotalAtMax
 		}
 		for _, parts := range PartConfigs(2, 3, total) {
+			orders := b.Orders
+			if len(parts) == 2 && parts[0]+parts[1] >= 6 {
+				orders = 0 // the largest configuration alternates the order from input to input
+			}
 			for _, subs := range SubVectors(n, len(parts), false) {
-				out = append(out, Block{Sweep: "full", N: n, Parts: parts, Subs: subs, Prior: PriorFull, Orders: b.Orders})
+				out = append(out, Block{Sweep: "full", N: n, Parts: parts, Subs: subs, Prior: PriorFull, Orders: orders})
 			}
 		}
 	}
